@@ -162,7 +162,8 @@ CHECKS["C05"] = dict(
          "units of a non-Manhattan operand edge), that at most one output polygon covers a point "
          "with winding +-1 (holes are zero-width slits), and the area identities (exact for "
          "Manhattan operands, within perimeter x grid otherwise). "
-             "The same operations are repeated on a grid of 1e-9 (scaled coordinates beyond 32 bits): area identities hold there and each fine-grid area equals the coarse-grid one up to the coarse rounding allowance.",
+             "The same operations are repeated on a grid of 1e-9 (scaled coordinates beyond 32 bits): area identities hold there and each fine-grid area equals the coarse-grid one up to the coarse rounding allowance. "
+             "A third run on a grid of 2^-34 with the operands squeezed into |x| < 2^30 and moved to y < -2^30 must give the same areas.",
     note="Trusted: TLC, Base/Region arithmetic. Clipper itself is vendored; the binding is on "
          "clipper_tools.cpp. Operands from a palette on a 12x12 grid, not arbitrary polygons.",
     design="4 C05")
@@ -364,7 +365,8 @@ CHECKS["C02"] = dict(
          "rounded to the grid (polygons as rings, repetitions as offset bags, properties exactly, "
          "detected circles [M] inside a tolerance annulus), later save/load cycles must reproduce "
          "the first reload, the grid must not drift and a requested signature must validate. "
-             "The libraries include near misses of all 26 compact trapezoid shapes (one vertex moved) and references rotated by negative and multiple whole turns; a reloaded polygon may differ from the saved one only if the saved one is itself a circle within the tolerances.",
+             "The libraries include near misses of all 26 compact trapezoid shapes (one vertex moved) and references rotated by negative and multiple whole turns; a reloaded polygon may differ from the saved one only if the saved one is itself a circle within the tolerances. "
+             "Properties with 14, 15 and 16 values (around the PROPERTY info byte's 4-bit count) are included.",
     note="Trusted: TLC, harness projection. Standard properties are excluded from the cycle "
          "comparison (they are recomputed per save; their truth is C04's clause). Simple RobustPaths made of straight sections are included; paths with offsets or round ends are outside the property's quantifier and not generated. "
          "thorough sweeps the full 256 x 10 x 2 option product; quick samples all 256 flag sets once.",
